@@ -30,3 +30,57 @@ def parse_diags(line):
                 d["notes"].append((sp, unhx(mh)))
         out.append(d)
     return out
+
+
+def parse_sexp(s):
+    """Parse a sequence of S-expressions (atoms are whitespace-free tokens) into nested lists."""
+    out, stack, tok = [], [], []
+    cur = out
+
+    def flush():
+        nonlocal tok
+        if tok:
+            cur.append("".join(tok))
+            tok = []
+    for ch in s:
+        if ch == "(":
+            flush()
+            new = []
+            cur.append(new)
+            stack.append(cur)
+            cur = new
+        elif ch == ")":
+            flush()
+            cur = stack.pop()
+        elif ch in " \n\t":
+            flush()
+        else:
+            tok.append(ch)
+    flush()
+    return out
+
+
+def split_dump(line):
+    """harness `dump` output -> (list of file sexps, diagnostics list) or (None, None) on crash."""
+    if line.startswith(("crash", "panic", "?", "skipped")) or " || " not in line:
+        return None, None
+    a, b = line.split(" || ", 1)
+    return parse_sexp(a), parse_diags(b)
+
+
+def find_all(sx, head):
+    """all sub-expressions whose first atom is `head`, in pre-order."""
+    out = []
+    if isinstance(sx, list):
+        if sx and sx[0] == head:
+            out.append(sx)
+        for x in sx:
+            out += find_all(x, head)
+    return out
+
+
+def child(sx, head):
+    for x in sx:
+        if isinstance(x, list) and x and x[0] == head:
+            return x
+    return None
